@@ -647,6 +647,17 @@ def headers(rnd, lengths=None, types=None):
     for ty in types:
         for ln in (19, 23):
             cases.append(("ty%d-l%d" % (ty, ln), [0xFF] * 16 + u16(ln) + [ty] + [1] * (ln - 19)))
+    # several faults in one header: the first check that fails decides (marker, then length, then type)
+    for pos, v in ((0, 0), (15, 0xFE), (7, 1)):
+        m = [0xFF] * 16
+        m[pos] = v
+        for ln in (0, 18, 4097, 65535):
+            cases.append(("mk%d-len%d" % (pos, ln), m + u16(ln) + [4]))
+        cases.append(("mk%d-ty0" % pos, m + [0, 19, 0]))
+        cases.append(("mk%d-len18-ty9" % pos, m + [0, 18, 9]))
+    for ln in (0, 18, 4097):
+        for ty in (0, 9, 255):
+            cases.append(("len%d-ty%d" % (ln, ty), [0xFF] * 16 + u16(ln) + [ty]))
     for name, raw in cases:
         st = rnd.choice(STATES)
         d = rnd.choice(DIRS)
@@ -666,6 +677,24 @@ def headers(rnd, lengths=None, types=None):
             b.send(c, stream, [1] * min(len(stream), 200))
         b.adv(1)
         out.append(b.tag("hdr").build())
+    # header faults on a later connection of the same FSM object, after sessions that ended without damping
+    for fault, raw in (("marker", [0xFF] * 15 + [0xFE, 0, 19, 4]), ("length", [0xFF] * 16 + [0, 18, 4]), ("type", [0xFF] * 16 + [0, 19, 9])):
+        for st in STATES:
+            for first_end in ("cease-rx", "eof", "cease-tx"):
+                p = peer(idleHold=sec(1), handlerReplies={"1": {"code": 6, "sub": 2, "data": []}} if first_end == "cease-tx" else None)
+                b = Sb("hdr2-%s-%s-%s" % (fault, st, first_end), [p])
+                b.start()
+                c = b.establish(direction="out")
+                if first_end == "cease-rx":
+                    b.notif(c, 6, 4)
+                elif first_end == "eof":
+                    b.rclose(c)
+                else:
+                    b.upd(c)                       # the handler answers with a Cease
+                b.adv(1)
+                c2 = b.to_state(st, direction="out")
+                b.send(c2, raw + keepalive()).adv(1)
+                out.append(b.tag("hdr", "second").build())
     # truncated body + EOF, absent body + stall
     for st in STATES:
         for kind in ("trunc-eof", "stall"):
@@ -2224,4 +2253,26 @@ def fsm_points():
             b.steps.append(multi(*subs))
             b.adv(1).adv(70)
             out.append(b.tag("fsmpt", "stop" if what in ("deletePeer", "close") else "cell").build())
+    return out
+
+
+def rx_notif_grid():
+    """C12/C09: received NOTIFICATION (code, subcode) grid in every state: every code but Cease damps (whatever
+    the subcode), Cease never does (whatever the subcode)."""
+    out = []
+    k = 0
+    for st in STATES:
+        for code in (1, 2, 3, 4, 5, 6, 7, 8, 255):
+            for sub in range(0, 12):
+                k += 1
+                d = DIRS[k % 2]
+                b = Sb("rxgrid-%s-%d-%d-%s" % (st, code, sub, d), [peer(hold=90, idleHold=sec(2), passive=(d == "in"))])
+                b.start()
+                c = b.to_state(st, direction=d)
+                b.notif(c, code, sub, [sub] * (k % 3))
+                c2 = b.connect()                       # refused during a hold-down, served otherwise
+                b.open(c2).advu(sec(2)).advu(sec(58) - 1).advu(1).adv(1)
+                c3 = b.connect()
+                b.open(c3).ka(c3).adv(1)
+                out.append(b.tag("damp" if code != 6 else "nodamp", "rxgrid").build())
     return out
